@@ -454,6 +454,61 @@ func (st *c02Stack) runCase(c *core.Ctx, m *core.Model, cs *c02Case, topN int) {
 	_ = st.store.PurgeMessages(cs.mb)
 }
 
+// twoRecipients: one transaction, two mailboxes (one per back-end): both copies are the whole message (only the Received trace line, which
+// names the mailbox, differs).
+func (st *c02Stack) twoRecipients(c *core.Ctx, r *rand.Rand, idx int) {
+	body := c02GenBody(r, 8192)
+	mbs := []string{fmt.Sprintf("mc02two%da", idx), fmt.Sprintf("fc02two%db", idx)}
+	if r.Intn(2) == 0 {
+		mbs[0], mbs[1] = mbs[1], mbs[0]
+	}
+	var out bytes.Buffer
+	fmt.Fprintf(&out, "HELO %s\r\nMAIL FROM:<%s>\r\nRCPT TO:<%s@%s>\r\nRCPT TO:<%s@%s>\r\nDATA\r\n", "two.test", c02Sender, mbs[0], c02Domain, mbs[1], c02Domain)
+	out.Write(refDataEncode(body))
+	out.WriteString("QUIT\r\n")
+	id := int(atomic.AddInt64(&st.sid, 1))
+	in, err := pipeSession(func(cn net.Conn) { st.smtp.VerifC02Session(id, cn) }, out.Bytes(), 30*time.Second)
+	cas := []string{"one transaction to two mailboxes: " + mbs[0] + ", " + mbs[1], "body=" + clip(fmt.Sprintf("%q", body), 300)}
+	replies := strings.Split(strings.TrimSuffix(string(in), "\r\n"), "\r\n")
+	if err != nil || len(replies) < 7 {
+		c.Fail("smtp-session", cas, fmt.Sprintf("%v; replies %q", err, replies), "")
+		return
+	}
+	if strings.HasPrefix(replies[6], "451") {
+		c.H("e2e:refused-451-unparseable-header")
+		return
+	}
+	if !strings.HasPrefix(replies[6], "250") {
+		c.Fail("smtp-accepts", cas, fmt.Sprintf("replies %q", replies), "")
+		return
+	}
+	want := refLFNorm(body)
+	for _, mb := range mbs {
+		msgs, err := st.store.GetMessages(mb)
+		if err != nil || len(msgs) != 1 {
+			c.Fail("stored-once", append(cas, "mailbox="+mb), fmt.Sprintf("GetMessages: %d messages, err %v", len(msgs), err), "")
+			continue
+		}
+		rc, err := msgs[0].Source()
+		if err != nil {
+			c.Fail("store-source", append(cas, "mailbox="+mb), err.Error(), "")
+			continue
+		}
+		src, _ := io.ReadAll(rc)
+		rc.Close()
+		c.Compared(1)
+		if !bytes.HasSuffix(src, want) || len(src) < len(want)+40 {
+			c.Fail("content-survives", append(cas, "mailbox="+mb), fmt.Sprintf("the copy in %q (%d bytes) does not end with the %d-byte message that was sent: %s", mb, len(src), len(want), clip(fmt.Sprintf("%q", src), 300)), "")
+		}
+		if msgs[0].Size() != int64(len(src)) {
+			c.Fail("size-is-length", append(cas, "mailbox="+mb), fmt.Sprintf("Size() = %d, len(Source()) = %d", msgs[0].Size(), len(src)), "")
+		}
+		_ = st.store.PurgeMessages(mb)
+	}
+	c.H("e2e:two-recipients")
+	c.Count("two|"+string(body), true)
+}
+
 // ---------- body generators ----------
 
 var c02BodyFrags = []string{".", "..", "...", ".a", "a.", " .", "a", "Subject: test", "From: x@y.z", "", "", "\x00", "\x00\x01", "\x80\xfe\xff", "caf\xc3\xa9", "\r", "a\rb",
@@ -517,7 +572,7 @@ func c02GenBody(r *rand.Rand, maxBytes int) []byte {
 }
 
 // genLongLineBody: lines around the old 64 KiB scanner limit (F-02) and beyond.
-func genLongLineBody(r *rand.Rand, big bool) []byte {
+func genLongLineBody(r *rand.Rand, big bool, dotEvery int) []byte {
 	var b bytes.Buffer
 	b.WriteString("Subject: long\r\n\r\n")
 	n := 1 + r.Intn(2)
@@ -529,8 +584,14 @@ func genLongLineBody(r *rand.Rand, big bool) []byte {
 		if r.Intn(3) == 0 {
 			b.WriteByte('.')
 		}
+		// dotEvery > 0: a dot wherever a reader that takes the line in pieces of that size would start a piece
+		off := b.Len()
 		for q := 0; q < ln; q++ {
-			b.WriteByte(byte('A' + q%26))
+			if dotEvery > 0 && (b.Len()-off)%dotEvery == 0 {
+				b.WriteByte('.')
+			} else {
+				b.WriteByte(byte('A' + q%26))
+			}
 		}
 		b.WriteString([]string{"\r\n", "\n", ""}[r.Intn(3)])
 		b.WriteString("tail\r\n")
@@ -607,6 +668,10 @@ func runC02EndToEnd(c *core.Ctx) {
 		}
 	})
 	st.concurrentReaders(c)
+	rt := c.SubRng("c02-two")
+	for i, n := 0, c.Scale(60, 1500); i < n; i++ {
+		st.twoRecipients(c, rt, i)
+	}
 	// long lines: around 64 KiB always; up to MiB lines in the thorough tier
 	nl := c.Scale(8, 40)
 	core.Parallel(4, 4, func(sh int) {
@@ -616,7 +681,7 @@ func runC02EndToEnd(c *core.Ctx) {
 		for i := 0; i < nl/4; i++ {
 			big := c.Thorough() && i%5 == 4
 			cs := &c02Case{kind: "rfc", mb: fmt.Sprintf("%sc02long%dn%d", []string{"m", "f"}[i%2], sh, i)}
-			cs.body = genLongLineBody(r, big)
+			cs.body = genLongLineBody(r, big, []int{0, 4096, 0, 65536, 1024, 0, 4096, 512}[i%8])
 			cs.wire = refDataEncode(cs.body)
 			st.runCase(c, m, cs, 1+r.Intn(3))
 			c.Count("l|"+string(cs.body), true)
